@@ -258,13 +258,18 @@ def run_lines_hang_aware(binary, lines, hang_output, args=("lines",), chunk_time
     case_timeout yields hang_output instead of aborting the check."""
     size = 250
     chunks = [lines[i:i + size] for i in range(0, len(lines), size)]
+    # 124: timeout(1) ended it; 137 / -9: killed (a spinning call can also exhaust memory first)
+    HUNG = ("exited 124", "exited 137", "exited -9")
+    # the process died of a signal (segmentation fault, abort, bus error, illegal instruction): the case that
+    # did it yields the hang output with "crash" for "hang", the others are run again one at a time
+    DIED = ("exited -11", "exited -6", "exited -7", "exited -4", "exited 139", "exited 134")
+    crash_output = hang_output.replace("hang", "crash")
 
     def one(ch):
         try:
             return _run_chunk(binary, ch, args, chunk_timeout, env)
         except CheckError as e:
-            # 124: timeout(1) ended it; 137 / -9: killed (a spinning call can also exhaust memory first)
-            if not any(x in str(e) for x in ("exited 124", "exited 137", "exited -9")):
+            if not any(x in str(e) for x in HUNG + DIED):
                 raise
         except subprocess.TimeoutExpired:
             pass
@@ -272,7 +277,9 @@ def run_lines_hang_aware(binary, lines, hang_output, args=("lines",), chunk_time
             try:
                 return _run_chunk(binary, [ln], args, case_timeout, env)[0]
             except CheckError as e:
-                if not any(x in str(e) for x in ("exited 124", "exited 137", "exited -9")):
+                if any(x in str(e) for x in DIED):
+                    return crash_output
+                if not any(x in str(e) for x in HUNG):
                     raise
                 return hang_output
             except subprocess.TimeoutExpired:
